@@ -15,7 +15,7 @@ Proof. unfold busy_tasks. induction ws as [|w ws IH]; cbn [flat_map length]; [li
 
 Lemma pstep_queue s t s' : length (p_queue s) <= qcap -> pstep qcap s t = Some s' -> length (p_queue s') <= qcap.
 Proof.
-  intros Hq H. destruct t as [j|k|k]; cbn [pstep] in H.
+  intros Hq H. destruct t as [j|k|k|]; cbn [pstep] in H.
   - destruct (nth_error (p_subs s) j) as [x|]; [|discriminate].
     destruct (s_ops x) as [|[tk| | |] rest]; try discriminate.
     + destruct (s_adding x).
@@ -30,11 +30,12 @@ Proof.
     + inversion H; subst; cbn. exact Hq.
   - destruct (nth_error (p_ws s) k) as [[|tk|]|]; try discriminate.
     destruct (p_closed s); inversion H; subst; cbn; exact Hq.
+  - inversion H; subst; cbn; exact Hq.
 Qed.
 
 Lemma pstep_ws_len s t s' : pstep qcap s t = Some s' -> length (p_ws s') = length (p_ws s).
 Proof.
-  intros H. destruct t as [j|k|k]; cbn [pstep] in H.
+  intros H. destruct t as [j|k|k|]; cbn [pstep] in H.
   - destruct (nth_error (p_subs s) j) as [x|]; [|discriminate].
     destruct (s_ops x) as [|[tk| | |] rest]; try discriminate.
     + destruct (s_adding x).
@@ -48,6 +49,7 @@ Proof.
     + inversion H; subst; cbn. apply set_nth_len.
   - destruct (nth_error (p_ws s) k) as [[|tk|]|]; try discriminate.
     destruct (p_closed s); inversion H; subst; cbn. apply set_nth_len.
+  - inversion H; subst; reflexivity.
 Qed.
 
 Lemma prun_queue sched : forall s,
